@@ -147,7 +147,7 @@ def main():
     for pid in ids:
         total = {}
         for vi, variant in enumerate(PROPS[pid]["variants"]):
-            if variant.endswith("z"):
+            if variant[-1] in "zu":
                 continue                      # same code, other fill
             cv = "cov5" if variant.endswith("5") else "cov"
             if cv not in outs:
